@@ -503,6 +503,7 @@ class Spec:
         self._deciding = set()
         self._estate = {}
         self._reach = {}
+        self._approx = {}
         self.asl = ASlicer(self.prog, self, env_steps=getattr(engine, 'env_steps', None))
         self.seen_sites = set()
         self._subs = {}
@@ -584,19 +585,31 @@ class Spec:
             return self._reach[fn.path]
         if fn.path in self._busy:
             self.conservative += 1
-            return None
+            return self._approx.get(fn.path)       # None in the first round: every block counts as feasible
         self._busy.add(fn.path)
         try:
-            seen, work = set(), [0]
-            while work:
-                b = work.pop()
-                if b in seen:
-                    continue
-                seen.add(b)
-                work.extend(self.fsuccs(fn, b))
+            # a decision whose tested value has to be re-sliced under the case asks for the feasible blocks while they
+            # are being computed, and stays open.  The set found that way is a superset of the feasible blocks; with
+            # it in hand those decisions can be made, which gives a smaller superset — repeated until nothing changes
+            for _round in range(4):
+                n0 = self.conservative
+                seen, work = set(), [0]
+                while work:
+                    b = work.pop()
+                    if b in seen:
+                        continue
+                    seen.add(b)
+                    work.extend(self.fsuccs(fn, b))
+                exact = self.conservative == n0
+                if exact or seen == self._approx.get(fn.path):
+                    break
+                self._approx[fn.path] = seen
         finally:
             self._busy.discard(fn.path)
-        self._reach[fn.path] = seen
+        if exact or not self._deciding:
+            self._reach[fn.path] = seen
+        # (else: asked for from inside a decision that is itself still open — a superset; computed again when asked for
+        # from outside)
         return seen
 
     def block_feasible(self, fn, bb):
@@ -888,8 +901,7 @@ class ScopeEval:
             base = self.seq(v[2][1], d + 1)
             if base is None:
                 return None
-            lab = self.label(v[2][0])
-            return base + [lab]
+            return base + self.labels(v[2][0])
         if v[0] == 'call' and v[1] == 'std::iter::Iterator::fold' and len(v[2]) == 3:
             it, init, cl = v[2]
             body = self.asl.apply_closure(strip(cl), (('sym', 'ACC'), ('sym', 'ELEM')))
@@ -1020,7 +1032,7 @@ class ScopeEval:
             return self.elems(v[1], d + 1)
         k = v[0]
         if k == 'array':
-            return [self.label(x) for x in v[1]]
+            return [l for x in v[1] for l in self.labels(x)]
         if k == 'agg' and v[1] == 'std::option::Option':
             return [self.label(v[3][0][1])] if v[2] == 'Some' else []
         if k == 'concat':
@@ -1056,7 +1068,7 @@ class ScopeEval:
             if n in ('std::iter::empty',) or (not args and tail in ('new', 'default', 'with_capacity')) or (tail == 'with_capacity' and 'Vec' in n):
                 return []
             if n == 'std::iter::once' and len(args) == 1:
-                return [self.label(args[0])]
+                return self.labels(args[0])
             if n == iters.IT + 'chain' and len(args) == 2:
                 a, b = self.elems(args[0], d + 1), self.elems(args[1], d + 1)
                 return None if a is None or b is None else a + b
@@ -1089,6 +1101,38 @@ class ScopeEval:
                 if iv is not None:
                     return self.elems(iv, d + 1)
         return self.fail('not an ordered literal collection: ' + vstr(v)[:120])
+
+    def is_noop_delta(self, v):
+        """v is a delta without entries that nothing was inserted into (a null object: `LayerEnvDelta::new()` kept in a
+        local) — applying it is the identity (R5: every insert belongs to one entry; R6: the result is the accumulator
+        that started as the input env), so it contributes no delta to the list"""
+        if any(x[0] in ('updated', 'concat', 'phi', 'unknown') for x in walk(v)):
+            return False
+        return is_fresh_delta(self.asl, v)
+
+    def labels(self, v):
+        """the deltas one applied operand stands for: [] for the null object, [`process[..]?`] for the delta found under
+        the process name with the null object as the fallback (`map.get(p).unwrap_or(&empty)` = applied when present),
+        else the one label"""
+        s = strip(v)
+        if self.is_noop_delta(v):
+            self.shape = self.shape or 'nested'
+            return []
+        if s[0] == 'call' and s[1].startswith('std::option::Option::') and len(s[2]) >= 2:
+            t = s[1].split('::')[-1]
+            o, dflt, pay = s[2][0], None, None
+            if t == 'unwrap_or' and len(s[2]) == 2:
+                dflt, pay = s[2][1], ('unwrap', o)
+            elif t == 'unwrap_or_else' and len(s[2]) == 2:
+                dflt, pay = self.asl.apply_closure(strip(s[2][1]), ()), ('unwrap', o)
+            elif t in ('map_or', 'map_or_else') and len(s[2]) == 3:
+                dflt = s[2][1] if t == 'map_or' else self.asl.apply_closure(strip(s[2][1]), ())
+                pay = self.asl.apply_closure(strip(s[2][2]), (('unwrap', o),))
+            if dflt is not None and pay is not None and self.is_noop_delta(dflt) and strip(pay) == strip(('unwrap', o)):
+                so = strip(o)
+                if so[0] == 'call' and so[1].split('::')[-1] == 'get' and len(so[2]) == 2 and L.self_field(self.f, so[2][0]) is not None:
+                    return [self.label(('unwrap', o), present_only=True)]
+        return [self.label(v)]
 
     def label(self, v, maybe=None, present_only=False):
         """name of a delta: the field of self, or `process[scope.process]?` for the delta found under the process name
@@ -1214,7 +1258,120 @@ def suffix_table(prog, sl):
         ws2 = planned_suffix_table(prog, sl)
     except Exception:
         ws2 = {}
-    return wd, (ws2 if len(ws2) > len(ws) else ws), winfo
+    if len(ws2) == 5:
+        return wd, ws2, winfo
+    try:
+        ws3 = lookup_suffix_table(prog, sl)
+    except Exception:
+        ws3 = {}
+    best = max((ws, ws2, ws3), key=len)
+    return wd, best, winfo
+
+
+def table_lookup_select(prog, sl, v):
+    """a `match` written as a lookup in a literal table of rows: `TABLE.iter().find(|row| row.i == subject)` followed by a
+    projection of the row found (`.map(|row| row.j)` + unwrap / expect / `?`, `.map_or_else(|| unreachable!(), ..)`), as
+    the select value ('select', subject, enum, ((variants, value)..)) the match would have been.  The key column must
+    hold literal variants of one enum, pairwise distinct (find returns the first hit), compared with the enum's derived
+    equality; a fallback for "not found" is only ignored when the key column covers every variant.  None: not that"""
+    v = strip(v)
+    if not (v[0] == 'call' and v[1].startswith('std::option::Option::')):
+        return None
+    t = _tail(v[1])
+    if t == 'map' and len(v[2]) == 2:
+        o, dflt, cl = v[2][0], None, v[2][1]
+    elif t in ('map_or', 'map_or_else') and len(v[2]) == 3:
+        o, dflt, cl = v[2]
+    else:
+        return None
+    o = strip(o)
+    if not (o[0] == 'call' and o[1] == iters.IT + 'find' and len(o[2]) == 2):
+        return None
+    src, pred = strip(o[2][0]), strip(o[2][1])
+    while src[0] == 'call' and len(src[2]) == 1 and iters._is_source(src[1]) and src[1].endswith(iters.SAME_ELEMS):
+        src = strip(src[2][0])
+    if not (src[0] == 'array' and src[1] and all(strip(r)[0] == 'tuple' for r in src[1])) or pred[0] != 'closure' or strip(cl)[0] != 'closure':
+        return None
+    rows = [strip(r)[1] for r in src[1]]
+    ROW = ('sym', 'ROW')
+    test = sl.apply_closure(pred, (ROW,))
+    proj = sl.apply_closure(strip(cl), (ROW,))
+    if test is None or proj is None:
+        return None
+    test, proj = strip(test), conv_root(proj)
+    if not (test[0] == 'call' and _tail(test[1]) == 'eq' and len(test[2]) == 2 and 'PartialEq' in test[1]):
+        return None
+    a, b = conv_root(test[2][0]), conv_root(test[2][1])
+    if b[0] == 'field' and strip(b[1]) == ROW:
+        a, b = b, a
+    if not (a[0] == 'field' and strip(a[1]) == ROW and a[2].isdigit() and ROW not in list(walk(b))):
+        return None
+    if not (proj[0] == 'field' and strip(proj[1]) == ROW and proj[2].isdigit()):
+        return None
+    ki, vi = int(a[2]), int(proj[2])
+    if any(ki >= len(r) or vi >= len(r) for r in rows):
+        return None
+    keys = [strip(r[ki]) for r in rows]
+    if not all(k[0] == 'agg' and k[2] and not k[3] for k in keys) or len({k[1] for k in keys}) != 1:
+        return None
+    enum = keys[0][1]
+    eqf = [f for f in prog.fns.values() if f.path.startswith('<%s as ' % enum) and f.path.endswith('PartialEq>::eq')]
+    if any(not f.derived for f in eqf):
+        return None     # a hand-written equality: the row found is not decided by the variant alone
+    names = [k[2] for k in keys]
+    if len(set(names)) != len(names):
+        return None
+    adt = prog.adt(enum)
+    total = adt is not None and {x['name'] for x in adt['variants']} == set(names)
+    if dflt is not None and not total:
+        return None
+    return ('select', b, enum, tuple(((n,), strip(r[vi])) for n, r in zip(names, rows)))
+
+
+def lookup_suffix_table(prog, sl):
+    """{variant: suffix} read off the file name of the writer's WRITE effect like layer_env_common.writer_suffix_table,
+    with the behaviour -> suffix mapping also accepted as a lookup in a literal table (table_lookup_select) and with
+    constant text between the variable name and the mapped part counted as part of the suffix (`name + "." + suffix`)"""
+    from .lib.effects import Effects
+    L.resolve_roles(prog, sl)
+    f = prog.fn(L.W_DIR)
+    E = Effects(prog, sl)
+    root = L.param_pred(f, 1)
+    tables = []
+    for e in E.expand(f, 'may'):
+        if e.kind != 'WRITE' or e.path is None:
+            continue
+        cs = L.comps(sl.inline_deep(e.path), root)
+        if cs is None or len(cs) != 1 or isinstance(cs[0], str):
+            return {}
+        rendered, rows, prefix = [], {}, ''
+        for x in L.string_parts(sl, cs[0]):
+            x = strip(x)
+            coll, proj = L.loop_element(x)
+            if coll is not None and L.self_field(f, coll) == 'entries' and proj == ('0', '1'):
+                rendered.append('NAME')
+                continue
+            if x[0] == 'const' and isinstance(x[1], str) and rendered == ['NAME']:
+                prefix += x[1]
+                continue
+            sel = x if x[0] == 'select' else table_lookup_select(prog, sl, x)
+            if sel is not None and sel[2] == MB:
+                c2, p2 = L.loop_element(conv_root(sel[1]))
+                if c2 is not None and L.self_field(f, c2) == 'entries' and p2 == ('0', '0'):
+                    rendered.append('SUFFIX')
+                    for names, val in sel[3]:
+                        val = strip(val)
+                        for n in names:
+                            if val[0] == 'const' and isinstance(val[1], str) and n not in rows:
+                                rows[n] = prefix + val[1]
+                    continue
+            rendered.append('?')
+        if rendered != ['NAME', 'SUFFIX']:
+            return {}
+        tables.append(rows)
+    if not tables or any(t != tables[0] for t in tables):
+        return {}
+    return tables[0]
 
 
 def _collection_elements(psl, coll, depth=0):
@@ -1478,6 +1635,9 @@ class ArmCase:
         return self.view is not None and bool(self.view.alias_keys) and canon(strip(v)) in self.view.alias_keys
 
     psl = None      # the engine's slicer (set by arm_cases): lets is_env look through private helpers
+    overlay = None  # Overlay of a staged application: the environment built so far is the input env overlaid with it
+
+    where = None    # staged application, variable set: 'staged' (its value is in the overlay) | 'base' (in the input env)
 
     def is_env(self, v, d=0, inner=False):
         """v is the environment the delta is applied to (clones are transparent to the value slicer): the parameter of
@@ -1603,6 +1763,15 @@ class ArmCase:
         return False
 
     # ---- Option algebra --------------------------------------------------------------------------------
+    def _uses_payload_of_none(self, spec, v, at, d):
+        if d > 10:
+            return False
+        for x in walk(v):
+            if x[0] == 'unwrap' and isinstance(x[1], tuple) and x[1] and x[1][0] == 'call' and _tail(x[1][1]) in ('get', 'or', 'or_else') \
+                    and self.opt(spec, x[1], at, d + 2) == ('none',):
+                return True
+        return False
+
     def opt(self, spec, v, at=None, d=0):
         """('none',) | ('some', payload value) | None (unknown)"""
         if d > 14 or not isinstance(v, tuple) or not v:
@@ -1616,6 +1785,11 @@ class ArmCase:
             rs = [self.opt(spec, x, at, d + 1) for x in v[1]]
             if all(r is not None for r in rs) and all(canon(r) == canon(rs[0]) for r in rs):
                 return rs[0]
+            # an alternative that uses the payload of an Option which is None in this case belongs to a path that is
+            # not taken (`match staged.get(k) { Some(v) => Some(v), None => env.get(k) }`): the others decide
+            live = [r for x, r in zip(v[1], rs) if not self._uses_payload_of_none(spec, x, at, d)]
+            if live and len(live) < len(rs) and all(r is not None for r in live) and all(canon(r) == canon(live[0]) for r in live):
+                return live[0]
             return None
         if k == 'select' and v[2] == MB and self.is_behaviour(v[1]):
             for names, val in v[3]:
@@ -1627,7 +1801,18 @@ class ArmCase:
         n, args = v[1], v[2]
         tail = n.split('::')[-1]
         if n == ENV_GET and len(args) == 2 and self.is_env(args[0]) and self.is_name(spec, args[1], at):
+            if self.overlay is not None:
+                # staged application: the environment built so far is the input env overlaid with the staging map.  A
+                # variable that is unset there is unset in both layers; one that is set has its value either staged
+                # (then what the input env holds for it is stale: not known) or in the input env (self.where)
+                if self.P == 'unset':
+                    return ('none',)
+                return ('some', ('sym', 'PREV')) if self.where == 'base' else None
             return ('none',) if self.P == 'unset' else ('some', ('sym', 'PREV'))
+        if self.overlay is not None and n.startswith(STAGE_MAPS) and tail == 'get' and len(args) == 2 and self.overlay.is_map(args[0]):
+            if not self.is_name(spec, args[1], at):
+                return None
+            return ('some', ('sym', 'PREV')) if (self.P != 'unset' and self.where == 'staged') else ('none',)
         if tail == 'get' and len(args) == 2 and 'Map' in n:
             if L.self_field(self.root, args[0]) == 'entries':
                 key = strip(args[1])
@@ -1743,7 +1928,13 @@ class ArmCase:
         if tail == 'is_empty' and len(args) == 1:
             return self.emptiness(self.atoms(spec, args[0], at, d + 1))
         if n == ENV_CONTAINS and len(args) == 2 and self.is_env(args[0]) and self.is_name(spec, args[1], at):
+            if self.overlay is not None:
+                return False if self.P == 'unset' else (True if self.where == 'base' else None)
             return self.P != 'unset'
+        if self.overlay is not None and n.startswith(STAGE_MAPS) and tail == 'contains_key' and len(args) == 2 and self.overlay.is_map(args[0]):
+            if not self.is_name(spec, args[1], at):
+                return None
+            return self.P != 'unset' and self.where == 'staged'
         if n.startswith('std::option::Option::') and args:
             if tail in ('is_some', 'is_none') and len(args) == 1:
                 o = self.opt(spec, args[0], at, d + 1)
@@ -2048,6 +2239,12 @@ def _insert_event(case, ends_of=None):
             if not case.is_env(recv):
                 return (('insert-into', vstr(recv)[:40], key, val),)
             return (('insert', key, val),)
+        if case.overlay is not None and fn.path == case.overlay.g.path and c.bb in case.overlay.insert_bbs:
+            # the value staged for the variable is what the flush inserts into the environment
+            spec.seen_sites.add((fn.path, c.bb))
+            at = (fn, c.bb, 'use')
+            return (('insert', case.atoms(spec, spec.to_root(spec.asl.operand(fn, c.args[1])), at),
+                     case.atoms(spec, spec.to_root(spec.asl.operand(fn, c.args[2])), at)),)
         hs = [h for h in spec.prog.callee_fns(c) if h.kind != 'Closure']
         writes = is_env_map_write(fn, c) or (c.name or '').startswith(HM_ENTRY) or any(spec.engine.has_env_write(h) for h in hs)
         if writes and (c.dty or '').startswith('&mut ') and c.dest and len(c.dest) == 1:
@@ -2330,6 +2527,161 @@ class EntryView:
         return None
 
 
+# ---------------------------------------------------------------------------------------------------------------
+# staged application: the new values are collected in a map of their own and written out afterwards
+# ---------------------------------------------------------------------------------------------------------------
+STAGE_MAPS = ('std::collections::HashMap', 'std::collections::BTreeMap')
+
+
+def _stage_local(f, pl):
+    """the place is a local that holds a map NAME -> OsString (not the map inside an Env behind `&mut`)"""
+    if not pl or len(pl) != 1:
+        return False
+    lo = f.locals[pl[0]]
+    ty = lo.get('ty') or ''
+    return lo.get('head') in STAGE_MAPS and ty.startswith(STAGE_MAPS) and ty.rstrip('>').endswith(', std::ffi::OsString')
+
+
+def _is_stage_insert(f, c):
+    """a call `map.insert(k, v)` on a name -> string map that lives in a local of f (syntactic candidate)"""
+    if c.indirect or not (c.name or '').startswith(STAGE_MAPS) or not c.name.endswith('::insert') or len(c.args) != 3:
+        return False
+    pl = op_place(c.args[0])
+    if not pl or len(pl) != 1:
+        return False
+    for d in f.whole_defs(pl[0]):
+        if d[0] == 'stmt' and d[3]['r'] == 'ref' and _stage_local(f, d[3]['p']):
+            return True
+    return False
+
+
+class Overlay:
+    """Copy-on-write spelling of the delta application: the values the entries give their variables are staged in a
+    map of their own (`overlay`), looked up overlay-first (`overlay.get(k).or_else(|| env.get(k))` is the lookup in the
+    environment built so far = input env overlaid with what was staged), and written into a copy of the input env once
+    every entry has been applied.  Admitted only when
+      - the overlay is a local name -> string map that starts empty before the entry loop,
+      - inside the entry loop it is only consulted with get / contains_key and changed with insert (nothing is removed),
+      - it is then moved / borrowed into exactly one loop behind the entry loop that inserts (key, value) of *every*
+        element into one environment (no condition, no early exit), and every return of the function lies behind it.
+    Keys of a map are unique, so the order in which the flush visits them does not matter.
+    .ok / .why; .local; .value (PSlicer value of the empty map); .flush_site (fn path, block of the Env::insert);
+    .insert_bbs (blocks of the staging inserts)"""
+
+    def __init__(self, engine, lp):
+        from .lib.effects import find_loops
+        self.ok, self.why = False, None
+        g, psl = engine.root, engine.psl
+        self.g = g
+        cands = set()
+        for c in g.calls:
+            if c.bb in lp.body and _is_stage_insert(g, c):
+                for d in g.whole_defs(op_place(c.args[0])[0]):
+                    if d[0] == 'stmt' and d[3]['r'] == 'ref':
+                        cands.add(d[3]['p'][0])
+        if len(cands) != 1:
+            self.why = '%d staging maps are written inside the entry loop' % len(cands)
+            return
+        n = self.local = cands.pop()
+        name = g.local_name(n) or '_%d' % n
+        defs = g.whole_defs(n)
+        if not (len(defs) == 1 and defs[0][0] == 'call' and not defs[0][3].args and _tail(defs[0][3].name) in ('new', 'default')
+                and defs[0][3].bb not in lp.body and g.dominates(defs[0][3].bb, lp.header)):
+            self.why = 'the staging map `%s` does not start empty before the entry loop' % name
+            return
+        self.value = strip(psl.local(g, n))
+        self.psl = psl
+        # every use of the map
+        self.insert_bbs, flush_calls = set(), []
+        for bi, b in enumerate(g.blocks):
+            if b.get('cleanup'):
+                continue
+            tmps = []
+            for st in b['s']:
+                if st[0] != '=':
+                    continue
+                rv = st[2]
+                if rv.get('r') == 'ref' and rv.get('p') == [n]:
+                    tmps.append((st[1], bool(rv.get('mut'))))
+                elif rv.get('r') == 'use' and (rv['o'].get('m') == [n] or rv['o'].get('c') == [n]):
+                    tmps.append((st[1], True))
+                elif _mentions_local(rv, n):
+                    self.why = 'the staging map `%s` is used in a way that is not understood' % name
+                    return
+            t = b['t']
+            c = g.call_at(bi) if t.get('t') == 'call' else None
+            direct = t.get('t') == 'call' and any(op_place(a) == [n] for a in (c.args if c else []))
+            if not tmps and not direct:
+                if t.get('t') not in ('drop',) and _mentions_local({k: v for k, v in t.items() if k != 'dest'}, n):
+                    self.why = 'the staging map `%s` is used in a way that is not understood' % name
+                    return
+                continue
+            if c is None or c.indirect or not c.args or not (direct and op_place(c.args[0]) == [n] or
+                                                               any(op_place(c.args[0]) == list(tl) for tl, _ in tmps)) or len(tmps) > 1:
+                self.why = 'the staging map `%s` is handed to something else than one of its own methods' % name
+                return
+            tail = _tail(c.name)
+            inside = bi in lp.body
+            if (c.name or '').startswith(STAGE_MAPS) and tail in ('get', 'contains_key') and len(c.args) == 2:
+                continue
+            if (c.name or '').startswith(STAGE_MAPS) and tail == 'insert' and len(c.args) == 3 and inside:
+                self.insert_bbs.add(bi)
+                continue
+            if not inside and (iters._is_source(c.name) or c.decl == 'std::iter::IntoIterator::into_iter' or tail in ('into_iter', 'iter', 'drain')) \
+                    and len(c.args) == 1:
+                flush_calls.append(c)
+                continue
+            self.why = 'the staging map `%s` is changed by %s' % (name, (c.name or '?').split('::')[-1])
+            return
+        if len(flush_calls) != 1:
+            self.why = 'the staging map `%s` is written out %d times' % (name, len(flush_calls))
+            return
+        fc = flush_calls[0]
+        if lp.header not in [b for b in range(len(g.blocks)) if fc.bb in g.reachable(b)] or fc.bb in lp.body or not g.dominates(lp.header, fc.bb):
+            self.why = 'the staging map is not written out behind the entry loop'
+            return
+        flush = [l2 for l2 in find_loops(g, psl) if l2.collection is not None and l2.header not in lp.body
+                 and L.loop_element(('unwrap', ('call', 'std::iter::Iterator::next', (l2.collection,), None)))[0] is not None
+                 and canon(L.loop_element(('unwrap', ('call', 'std::iter::Iterator::next', (l2.collection,), None)))[0]) == canon(self.value)]
+        if len(flush) != 1:
+            self.why = 'no single loop over the staging map `%s` behind the entry loop' % name
+            return
+        l2 = flush[0]
+        body_calls = [c for c in g.calls if c.bb in l2.body and c.bb != l2.header and not g.blocks[c.bb].get('cleanup')]
+        switches = [b for b in l2.body if g.blocks[b]['t'].get('t') == 'switch']
+        if len(body_calls) != 1 or body_calls[0].name != ENV_INSERT or len(body_calls[0].args) != 3 or len(switches) != 1 or l2.exhaust is None:
+            self.why = 'the loop that writes the staged values out does more than one unconditional Env::insert per element'
+            return
+        ic = body_calls[0]
+        k = L.loop_element(psl.operand(g, ic.args[1]))
+        v = L.loop_element(psl.operand(g, ic.args[2]))
+        if not (k[0] is not None and v[0] is not None and canon(k[0]) == canon(self.value) and canon(v[0]) == canon(self.value)
+                and k[1] == ('0',) and v[1] == ('1',)):
+            self.why = 'the loop that writes the staged values out does not insert (key, value) of its element'
+            return
+        if not all(g.dominates(l2.header, r) and g.dominates(l2.exhaust[1], r) for r in g.return_blocks()):
+            self.why = 'a return of %s is not behind the loop that writes the staged values out' % g.path.split('::')[-1]
+            return
+        self.flush_site = (g.path, ic.bb)
+        self.flush_call = ic
+        self.ok = True
+
+    def is_map(self, v):
+        return canon(strip(v)) == canon(self.value)
+
+
+def _mentions_local(x, n):
+    if isinstance(x, dict):
+        for k, v in x.items():
+            if k in ('p', 'c', 'm') and isinstance(v, list) and v and v[0] == n:
+                return True
+            if _mentions_local(v, n):
+                return True
+    elif isinstance(x, (list, tuple)):
+        return any(_mentions_local(y, n) for y in x)
+    return False
+
+
 def entry_loops(engine):
     """loops of the root over self.entries — or over an order-preserving filter / map view of them (EntryView) — that
     contain (possibly through helpers) an insert into the environment"""
@@ -2350,6 +2702,10 @@ def entry_loops(engine):
         if any(c.name == ENV_INSERT or any(engine.has_env_write(h) for h in engine.prog.callee_fns(c)) or
                any(engine.has_env_write(h) for h in engine.prog.fn_item_args(c)) for c in body_calls):
             out.append(lp)
+        elif any(_is_stage_insert(g, c) for c in body_calls):
+            # no environment is written inside the loop, but a name -> string map is: a staged application (Overlay)
+            out.append(lp)
+            engine.staged = getattr(engine, 'staged', set()) | {lp.header}
     return out
 
 
@@ -2392,7 +2748,18 @@ def entry_closures(engine):
     return out
 
 
+_ARM_MEMO = {}
+
+
 def arm_cases(prog):
+    """memoised _arm_cases (R5, R6 and C10 ask for the same evaluation)"""
+    key = id(prog)
+    if key not in _ARM_MEMO or _ARM_MEMO[key][0] is not prog:
+        _ARM_MEMO[key] = (prog, _arm_cases(prog))
+    return _ARM_MEMO[key][1]
+
+
+def _arm_cases(prog):
     """{(B, P, D): set of event tuples} of the application of one entry by LayerEnvDelta::apply (one iteration of its
     loop over self.entries, or one run of the closure handed to for_each / fold over them), the insert call sites
     seen, and diagnostics"""
@@ -2407,6 +2774,13 @@ def arm_cases(prog):
         return g, None, set(), info
     view = None
     ends_of = None
+    overlay = None
+    if loops and loops[0].header in getattr(eng, 'staged', ()):
+        overlay = Overlay(eng, loops[0])
+        if not overlay.ok:
+            info['why'] = 'the entry loop writes no environment, and is not a staged application either: %s' % overlay.why
+            return g, None, set(), info
+        info['overlay'] = overlay
     if loops:
         lp = loops[0]
         view = eng.views.get(lp.header)
@@ -2434,19 +2808,29 @@ def arm_cases(prog):
                 if view is not None and view.table is not None and b not in view.table:
                     res[(b, p, d)] = {()}       # entries of this behaviour are never visited: nothing is inserted
                     continue
-                case = ArmCase(g, b, p, d, view)
-                case.psl = eng.psl
-                spec = Spec(eng, case)
-                if view is not None and view.dynamic:
-                    st = view.bind_case(spec, case)
-                    if st == 'skipped':
-                        res[(b, p, d)] = {()}       # the view never yields an entry of this case: nothing is inserted
-                        continue
-                    if st != 'visited':
-                        info['why'] = 'the loop over the entries was not understood: ' + st[1]
-                        return g, None, seen, info
-                res[(b, p, d)] = spec.events(walk_fn, starts, ends, _insert_event(case, ends_of), ret_marker=marker, marks=marks)
-                seen |= spec.seen_sites
+                # (staged application: a variable that is set has its value in the overlay or in the input env — both
+                # are evaluated, the rule must hold for either)
+                layers = (None,) if overlay is None or p == 'unset' else ('staged', 'base')
+                evs = set()
+                for layer in layers:
+                    case = ArmCase(g, b, p, d, view)
+                    case.psl = eng.psl
+                    case.overlay = overlay
+                    case.where = layer
+                    spec = Spec(eng, case)
+                    if view is not None and view.dynamic:
+                        st = view.bind_case(spec, case)
+                        if st == 'skipped':
+                            evs |= {()}       # the view never yields an entry of this case: nothing is inserted
+                            continue
+                        if st != 'visited':
+                            info['why'] = 'the loop over the entries was not understood: ' + st[1]
+                            return g, None, seen, info
+                    evs |= set(spec.events(walk_fn, starts, ends, _insert_event(case, ends_of), ret_marker=marker, marks=marks))
+                    seen |= spec.seen_sites
+                res[(b, p, d)] = evs
+    if overlay is not None:
+        seen.add(overlay.flush_site)       # (what it inserts is what was staged: Overlay)
     return g, res, seen, info
 
 
@@ -2606,6 +2990,43 @@ class EnvObjects:
         return 'unknown (%s)' % (r[1],)
 
 
+def _empty_delta_copy(prog, g, eo, r, env_i):
+    """r is an environment of g that is a top-level clone of the input env, made (and only made) where the delta is
+    known to have no entries (`self.entries.is_empty()` / `len() == 0` holds), and that nothing is done with"""
+    if not (r[0] == 'obj' and r[1] == g.path):
+        return False
+    if any(r in (x[1] if x[0] == 'phi' else (x,)) for _, _, x, _ in eo.uses(g)):
+        return False
+    psl = PSlicer(prog)
+    defs = g.whole_defs(r[2])
+    if not defs:
+        return False
+    ncalls = 0
+    for d in defs:
+        if d[0] == 'stmt' and d[3]['r'] == 'use' and op_place(d[3]['o']) and eo.place(g, op_place(d[3]['o'])) != r:
+            continue        # (the return local: on other paths another environment is moved into it — judged on its own)
+        if not (d[0] == 'call' and _is_clone(d[3]) and _env_place(g, op_place(d[3].args[0]))
+                and eo.operand(g, d[3].args[0]) == ('param', g.path, env_i) and not g.in_loop(d[3].bb)):
+            return False
+        ncalls += 1
+        ok = False
+        for cd in conditions(g, d[3].bb, psl):
+            if cd.kind != 'bool':
+                continue
+            for view in cd.views():
+                v, pol = (view if isinstance(view, tuple) and len(view) == 2 and isinstance(view[1], bool) else (view, cd.value))
+                v = strip(v)
+                if v[0] == 'bin' and v[1] in ('Eq', 'Ne') and strip(v[3]) == ('const', 0) and pol is (v[1] == 'Eq'):
+                    v, pol = strip(v[2]), True       # `self.entries.len() == 0`
+                if pol is True and v[0] == 'call' and _tail(v[1]) in ('is_empty', 'len') and len(v[2]) == 1:
+                    x = strip(v[2][0])
+                    if x[0] == 'field' and x[2] == 'entries' and _is_param(x[1], g, 0):
+                        ok = True
+        if not ok:
+            return False
+    return ncalls > 0
+
+
 def running_env(prog):
     """[(kind 'violated'|'unproven', where, message)] for the obligation: inside the per-delta application (its core
     function, the closures and private helpers it enters) every call that is handed an environment is handed *the*
@@ -2616,6 +3037,12 @@ def running_env(prog):
     region = {p: f for p, f in prog.reach([g]).items() if f.crate == g.crate}
     out = []
     R = {}
+    F_written = {}
+    try:
+        _g, arm_res, _seen, arm_info = arm_cases(prog)
+    except Exception:
+        arm_res, arm_info = None, {}
+    overlay = arm_info.get('overlay') if arm_res is not None else None
     gw = '%s:%d' % (g.file, g.line)
 
     def short(c):
@@ -2635,6 +3062,13 @@ def running_env(prog):
             c = by_root[unknown_[0]][0]
             out.append(('unproven', c.where(), 'the environment handed to %s is not understood: %s' % (short(c), unknown_[0][1])))
             continue
+        if len(by_root) > 1 and overlay is not None and f.path == g.path:
+            # staged application: no environment is written while the entries are applied; the input env is the lower
+            # layer of the environment built so far, and R5 evaluates every lookup in it as exactly that (stale for a
+            # variable whose value has been staged) — reading it is not reading a second environment
+            base = ('param', g.path, 1)
+            if base in by_root and base not in written and all(c.name in (ENV_GET, ENV_CONTAINS) for c in by_root[base]):
+                del by_root[base]
         if len(by_root) > 1:
             # the environment that is written is the one being built; anything else that is consulted is stale
             others = [r for r in by_root if r not in written] or list(by_root)[1:]
@@ -2644,6 +3078,7 @@ def running_env(prog):
                         (f.path.split('::')[-1], short(c), eo.describe(others[0]), eo.describe((written or list(by_root))[0]))))
             continue
         R[f.path] = next(iter(by_root))
+        F_written[f.path] = list(written)
 
     # the accumulator of the core function: starts from the input env, is what is returned
     acc = None
@@ -2673,6 +3108,12 @@ def running_env(prog):
             out.append(('unproven', gw, 'the environment the entries are applied to (%s) does not start as a clone of the input env' % eo.describe(acc)))
     else:
         out.append(('unproven', gw, 'the environment the entries are applied to is the %s' % eo.describe(acc)))
+    if not inplace and rg is not None and ret != rg and ret[0] == 'phi' and rg in ret[1]:
+        # `if self.entries.is_empty() { return env.clone() }`: on a path taken only when the delta has no entry, a copy
+        # of the input env *is* the environment the (zero) entries were applied to
+        rest = frozenset(r for r in ret[1] if r != rg and not _empty_delta_copy(prog, g, eo, r, env_i))
+        if not rest:
+            ret = rg
     if not inplace and rg is not None and ret != rg:
         out.append(('violated' if ret[0] in ('param', 'obj') else 'unproven', gw,
                     'the environment returned (%s) is not the one the entries were applied to (%s)' % (eo.describe(ret), eo.describe(rg))))
@@ -2704,6 +3145,11 @@ def running_env(prog):
                 continue
             cr = eo.operand(P, s[2]['ops'][r[2]])
             want = R.get(P.path) or (ret if P.path == g.path else None)
+            if want is not None and cr != want and overlay is not None and cr == ('param', g.path, env_i) and r not in F_written.get(fp, ()) and \
+                    all(c.name in (ENV_GET, ENV_CONTAINS) for c, i, x, m in eo.uses(F) if x == r):
+                # staged application: the closure looks a variable up in the lower layer of the environment built so far
+                # (`overlay.get(k).or_else(|| env.get(k))`); R5 evaluates such lookups as lookups in the input env
+                continue
             if want is None or cr != want:
                 out.append(('violated' if want is not None and cr[0] in ('param', 'obj') else 'unproven', fw,
                             'closure %s works on the %s, not on the environment being built%s' %
@@ -2741,12 +3187,23 @@ def running_env(prog):
                     continue
                 cr = eo.place(f, op_place(c.args[r[2]]))
                 want = R.get(f.path) or (ret if f.path == g.path else None)
+                if overlay is not None and cr == ('param', g.path, env_i) and cr != want and (F.args[r[2]] or '').startswith('&') and \
+                        not (F.args[r[2]] or '').startswith('&mut') and r not in F_written.get(fp, ()):
+                    continue        # staged application: a read-only look into the lower layer (see above)
                 if want is None or cr != want:
                     out.append(('violated' if want is not None and cr[0] in ('param', 'obj') else 'unproven', c.where(),
                                 '%s is handed the %s, not the environment being built%s' %
                                 (short(c), eo.describe(cr), (' (%s)' % eo.describe(want)) if want else '')))
             continue
         out.append(('unproven', fw, '%s works on %s' % (fp.split('::')[-1], eo.describe(r))))
+    if arm_res is None and any(p[0] == 'violated' for p in out):
+        # "entries applied before are not seen" presupposes that the reads and writes in question happen once per entry
+        # of self.entries, in map order.  When the per-entry loop itself was not understood (R5 says what was met) the
+        # iteration may range over something else (e.g. one round per variable), and a second environment is not
+        # known to be stale: not decided, rather than a breach
+        out = [(('unproven', p[1], p[2] + ' — not decided: the per-entry loop of the delta application was not understood (see R5), so it '
+                 'is not known that an earlier entry for the same variable can have been applied at that point') if p[0] == 'violated' else p)
+               for p in out]
     return g, out, eo.describe(acc)
 
 
